@@ -104,6 +104,23 @@ func unsafeRel(safe, unsafe []byte) string {
 	if err != nil {
 		return ""
 	}
+	// the safe side never carries a URL a browser would run; the unsafe side has the destination
+	// of the source wherever the safe side has a blank
+	if toks, _ := scanHTML(safe); true {
+		for _, t := range toks {
+			if t.kind != 's' {
+				continue
+			}
+			for _, an := range []string{"href", "src"} {
+				if v, ok := t.attr(an); ok && dangerousURL(v) {
+					return fmt.Sprintf("safe output carries the dangerous URL %q: %.250q (unsafe: %.250q)", v, safe, unsafe)
+				}
+			}
+		}
+	}
+	if !bytes.Contains(safe, []byte("<!-- raw HTML omitted -->")) && bytes.Count(unsafe, []byte(`href=""`))+bytes.Count(unsafe, []byte(`src=""`)) > bytes.Count(safe, []byte(`href=""`))+bytes.Count(safe, []byte(`src=""`)) {
+		return fmt.Sprintf("the unsafe output has more blank destinations than the safe one: safe %.250q unsafe %.250q", safe, unsafe)
+	}
 	if !r.Match(unsafe) {
 		return fmt.Sprintf("Unsafe output differs outside raw-HTML placeholders and blanked URLs: safe %.250q unsafe %.250q", safe, unsafe)
 	}
